@@ -17,7 +17,7 @@ def run_one(m):
         s = s.replace(m["old"], m["new"], 1)
         open(p, "w").write(s)
         env = dict(os.environ, VERIF_REPO=d, VERIF_BUILD=os.path.join(d, "build"), VERIF_REPLAYS=os.path.join(d, "replays"), VERIF_EVIDENCE_DIR=os.path.join(d, "evidence"))
-        r = subprocess.run([os.path.join(ROOT, "check"), m["property"]], env=env, stdout=subprocess.PIPE, stderr=subprocess.PIPE, text=True)
+        r = subprocess.run([os.path.join(ROOT, "check"), m["property"], "--tier", m.get("tier", "quick")], env=env, stdout=subprocess.PIPE, stderr=subprocess.PIPE, text=True)
         viol = [l for l in r.stdout.split("\n") if l.startswith("VIOLATION")]
         if r.returncode == 1 and viol:
             return (m, "CAUGHT", viol[0].split("obligation=")[-1])
